@@ -63,7 +63,11 @@ def traces(app_empty: int, type_is_key: int, nprev: int) -> list[list[PVEvent]]:
                   applicationName="app", jobName="wf", eventType="T2")]
     t2 = [PVEvent(jobId="j2", eventId="f1", timestamp="2024-01-01T00:00:02.000000Z", previousEventIds=[],
                   applicationName="app", jobName="wf", eventType="T3")]
-    return [t1, t2]
+    out = [t1, t2]
+    for i in range(CFG.get("many", 0)):     # a workflow with many traces: one file per trace, numbered in stream order
+        out.append([PVEvent(jobId=f"m{i}", eventId=f"m{i}e", timestamp="2024-01-01T00:00:03.000000Z", previousEventIds=[],
+                            applicationName="app", jobName="wf", eventType=f"M{i}")])
+    return out
 
 
 def roundtrip(mc: Optional[PVEventMappingConfig], trs: list[list[PVEvent]]) -> Optional[str]:
@@ -83,9 +87,10 @@ def roundtrip(mc: Optional[PVEventMappingConfig], trs: list[list[PVEvent]]) -> O
             o2p.handle_save_events("wf", ((e for e in t) for t in trs), "/out", mc)  # type: ignore[arg-type]
         except Exception as e:  # noqa
             return f"saving raised {type(e).__name__}: {e}"
-        paths = sorted(FILES)
-        if paths != [f"/out/wf/pv_event_sequence_{k}.json" for k in range(1, len(trs) + 1)]:
-            return f"files written: {paths}"
+        want_paths = [f"/out/wf/pv_event_sequence_{k}.json" for k in range(1, len(trs) + 1)]
+        if sorted(FILES) != sorted(want_paths):
+            return f"files written: {sorted(FILES)}"
+        paths = want_paths
         try:
             kwargs = {} if mc is None else {"mapping_config": mc}
             streams = list(pvp.pv_files_to_pv_streams(file_list=paths, job_name="wf", **kwargs))   # what pv2puml -fp ... does
